@@ -11,13 +11,15 @@ de-chunked body), symbolic ``Content-Encoding``.  ``decompress`` is a contract s
 exactly what C18 decides (plaintext iff within the cap, else DecompressionLimitExceeded, any other
 exception when undecodable); ``pa.BufferReader`` is a box (pyarrow would realise the bytes).
 
-Decided: 413 <=> wire size > cap or decoded size > cap; never more than cap+1 bytes pulled from the
-stream; 415 <=> coding names no enabled codec; 400 <=> decoder fails with a non-limit error;
+Decided: 413 <=> wire size > cap or decoded size > cap; never more than the cap plus a bounded chunk
+pulled from the stream (no read that asks for everything / for more than cap + 64 KiB delivers more than
+cap+1 bytes); 415 <=> coding names no enabled codec; 400 <=> decoder fails with a non-limit error;
 otherwise the RPC layer gets exactly the decoded bytes (or the wire bytes when no coding is named).
 
 Further items (each a genuine defect of the pinned tree, kept as stated, with a real-app replay):
 * ``Content-Encoding: identity`` (the no-op coding) must pass through like an unencoded body;
-* paths the factory exempts from the wire cap must still not have more than cap+1 body bytes read;
+* paths the factory exempts from the wire cap must still not have more than the cap plus a bounded chunk of
+  body read, with and without Content-Length, with and without a de-chunking WSGI stack;
 * ``_DrainRequestMiddleware.process_response`` (runs after every request, also after a 413) must
   not turn the refused body into one bytes object;
 * truncated gzip members / zstd frames are decided on the real ``_decompress_body_gzip`` /
@@ -61,12 +63,14 @@ _NP = pick(4, 8)  # decoded length bound
 
 BOUNDS = (
     f"wire body = any bytes len<={_NB}; Content-Length None or 0..{_NB + 2}; cap 0..{_NB + 1} (or unset); decoded plaintext any bytes len<={_NP}; "
-    "Content-Encoding = absent / blank / codec and non-codec tokens in 4 case variants with optional SP/HTAB / codec names with any one glued character / any string len<=%d; " % pick(2, 3) +
+    "Content-Encoding = absent / blank / codec, non-codec and RFC 9110 alias tokens in 4 case variants with optional SP/HTAB / codec names with any one glued character / any string len<=%d; " % pick(2, 3) +
     "decode set = every subset of {zstd, gzip}; truncated frames: plaintext len<=%d cut anywhere (C18 codec stubs, chunk 3)" % c18._N
 )
 OUTSIDE = (
     "WSGI server / Falcon parsing of the raw request (Content-Length syntax, chunked framing); routes and resources after the two middlewares; "
-    "real zlib/zstandard (contract stubs, see C18; replays use the real libraries and the real app); negative caps; multi-member inputs; "
+    "real zlib/zstandard (contract stubs, see C18; replays use the real libraries and the real app); negative caps; multi-member inputs "
+    "(the zstd decoder replays probe a two-frame body for materialisation only); how the decoder sizes its individual requests to the codec; "
+    "headers made only of non-HTTP white space may be read as blank or as an unknown token; "
     "corrupt (as opposed to truncated) frames are represented only by 'the codec raises'"
 )
 ASSUMPTIONS = [
@@ -74,6 +78,9 @@ ASSUMPTIONS = [
     "decompress contract in the middleware items = the statement decided by C18 (plaintext iff len<=cap or cap None; DecompressionLimitExceeded otherwise; other exception iff undecodable)",
     "the middleware pipeline is the pair of instances built by make_wsgi_app, in its order; the other middlewares of the app do not touch the body before them",
     "Content-Encoding: identity is the no-op coding and must pass through (vgi_rpc._codec.decompress docstring: 'it must pass through rather than 415')",
+    "'a bounded chunk' := 64 KiB of wire bytes (judged on the size a read ASKS for, the bodies of the bound being a few bytes long; replays send 200 KiB bodies and count bytes) "
+    "and one _DECOMPRESS_CHUNK_BYTES (+ zlib's pending output) of decoded bytes",
+    "x-gzip / x-compress (RFC 9110 aliases) may be refused with 415 or decoded as the codec they stand for",
 ]
 
 # ---------------------------------------------------------------------------
@@ -172,7 +179,7 @@ class _Dec:
     cap: object = None
 
 
-def _decompress_contract(encoding: object, data: object, *, max_output_size: int | None = None) -> bytes:
+def _decompress_contract(encoding: object, data: object, *, max_output_size: int | None = None, **_kw: object) -> bytes:
     _Dec.calls += 1
     _Dec.enc, _Dec.data, _Dec.cap = encoding, data, max_output_size
     if _Dec.undecodable:
@@ -225,15 +232,20 @@ class _Stream:
         self._pos = 0
         self.pulled = 0  # bytes turned into Python objects by read()
         self.biggest = 0  # largest single object produced by read()
+        self.unlimited = False  # some read() asked for "everything"
+        self.max_req = 0  # largest bounded read(n) request
 
     def __getattr__(self, name: str) -> object:
         raise _model_error(f"stream stub has no {name}")
 
-    def read(self, size: int | None = None) -> bytes:
+    def read(self, size: int | None = None, *a: object, **kw: object) -> bytes:
         avail = self._end - self._pos
         if size is None or size < 0:
+            self.unlimited = True
             k = avail
         else:
+            if size > self.max_req:
+                self.max_req = size
             k = size if size < avail else avail
         out = self._data[self._pos : self._pos + k]
         self._pos += k
@@ -265,6 +277,17 @@ class _Req:
         if name in ("Accept-Encoding", "X-VGI-Accept-Encoding"):
             return None
         raise HarnessModelError(f"unexpected header lookup {name}")
+
+
+_WIRE_CHUNK = 64 * 1024  # "a bounded chunk" of wire bytes: what a chunked sentinel read may pull beyond the cap
+
+
+def over_pulled(stream: object, cap: int, amount: int) -> bool:
+    """``amount`` body bytes were materialised: more than the cap plus a bounded chunk?  The bodies of the bound are
+    a few bytes long, so the chunk cannot be a byte count there: a read that ASKS for no more than cap + 64 KiB is
+    within the property whatever it delivers; one that asks for everything (or for more than that) is judged by
+    what it delivered."""
+    return amount > cap + 1 and (stream.unlimited or stream.max_req > cap + _WIRE_CHUNK)  # type: ignore[attr-defined]
 
 
 def _wire_len(n: int, has_cl: bool, cl: int, dechunked: bool) -> int:
@@ -369,16 +392,21 @@ def _replay_identity(args: dict) -> str | None:
     got, payload, _ = _wsgi_call(app, "POST", url, content, {**headers, "Content-Encoding": ce})
     if base == 200 and got != 200:
         return f"a valid {len(content)}-byte request answered 200 is answered {got} once it carries 'Content-Encoding: {ce}' (no transform applied): {payload[:160]!r}"
+    if "has_cl" in args:
+        return _wire_bomb(_RPC_PATH, ce, args["has_cl"], args["dechunked"])
     return None
 
 
-def _real_pipeline_pull(app: object, method: str, path: str, body: bytes, headers: dict) -> tuple[str, int]:
+def _real_pipeline_pull(app: object, method: str, path: str, body: bytes, headers: dict, has_cl: bool = True, dechunked: bool = False) -> tuple[str, int]:
     """The factory's two middleware instances (real code, real Falcon request, real codecs) on one request:
     (outcome, bytes pulled from wsgi.input by them)."""
     env = falcon.testing.create_environ(path=path, method=method, headers=headers, body=body)
     inp = _CountingInput(body)
     env["wsgi.input"] = inp
-    req = falcon.Request(env)
+    if not has_cl:
+        env.pop("CONTENT_LENGTH", None)
+        env["HTTP_TRANSFER_ENCODING"] = "chunked"
+    req = (_DechunkedRequest if (not has_cl and dechunked) else falcon.Request)(env)
     outcome = "passed on"
     try:
         for _kind, m, _ in _pipeline_any(app):
@@ -431,12 +459,29 @@ _K = 200  # replays add K to every length: relations between sizes and the cap a
 
 def _mismatch(what: str, got: tuple[int, bytes | None, int], want_status: tuple[int, ...], want_body: bytes | None, cap: int | None) -> str | None:
     status, handed, pulled = got
-    if cap is not None and pulled > cap + 1:
-        return f"{what}: the request middlewares read {pulled} bytes of body (cap {cap})"
+    if cap is not None and pulled > cap + 1 + _WIRE_CHUNK:
+        return f"{what}: the server read {pulled} bytes of body into memory (cap {cap})"
     if status not in want_status:
         return f"{what}: answered {status if status != 200 else 'by passing the body on'}, expected {'/'.join(map(str, want_status))}"
     if status == 200 and want_body is not None and handed != want_body:
         return f"{what}: the RPC layer received {len(handed or b'')} bytes that are not the client's {len(want_body)}-byte request"
+    return None
+
+
+def _wire_bomb(path: str, ce: str | None, has_cl: bool, dech: bool, cap: int = 64) -> str | None:
+    """The same framing with a body far over the cap (cap + three 64 KiB chunks): refused with 413 on an RPC path, and
+    on every path without more than the cap plus one chunk of it being read into memory."""
+    if not has_cl and not dech:
+        return None  # Falcon serves no body at all without Content-Length
+    body = (bytes(range(256)) * ((cap + 3 * _WIRE_CHUNK) // 256 + 1))[: cap + 3 * _WIRE_CHUNK]
+    app = _build_app(cap)
+    outcome, pulled = _real_pipeline_pull(app, "POST", path, body, {} if ce is None else {"Content-Encoding": ce}, has_cl, dech)
+    what = f"max_request_bytes={cap}, POST {path} with a {len(body)}-byte body, Content-Length {len(body) if has_cl else 'absent (de-chunked by the WSGI stack)'}, Content-Encoding {ce!r}"
+    if pulled > cap + 1 + _WIRE_CHUNK:
+        return f"{what}: the request middlewares read {pulled} bytes of it into memory ({outcome})"
+    exempt = any(path == pre or path.startswith(pre + "/") for pre in _EXEMPT)
+    if not exempt and not outcome.startswith("413"):
+        return f"{what}: {outcome}, expected 413"
     return None
 
 
@@ -448,7 +493,7 @@ def _replay_passthrough(args: dict) -> str | None:
     got = _real_request(cap, None, _RPC_PATH, data, cl if has_cl else None, dech, ce)
     too_big = (cl > cap) if has_cl else (wire > cap)
     what = f"max_request_bytes={cap}, {len(data)}-byte body, Content-Length {cl if has_cl else 'absent'}, Content-Encoding {ce!r}"
-    return _mismatch(what, got, (413,) if too_big else (200,), data[:wire], cap)
+    return _mismatch(what, got, (413,) if too_big else (200,), data[:wire], cap) or _wire_bomb(_RPC_PATH, ce, has_cl, dech)
 
 
 def _replay_header(header: str, decode: tuple, codec: str | None, want: tuple[int, ...]) -> str | None:
@@ -468,6 +513,10 @@ def _replay_token(args: dict) -> str | None:
     texts, codec = _TOKENS[args["which"]]
     header = _OWS[args["lp"]] + texts[args["variant"]] + _OWS[args["rp"]]
     decode = _decode_set(args["dz"], args["dg"]) if codec is not None else _DEC_SETS[3]
+    if args["which"] >= _ALIAS_FIRST:
+        # the body is compressed with the codec the alias stands for: refused, or decoded to the client's bytes
+        of = _ALIAS_TOKENS[args["which"] - _ALIAS_FIRST][1]
+        return _replay_header(header, decode, of if of in _ENC_BY_NAME else None, (200, 415) if of in _ENC_BY_NAME else (415,))
     ok = codec is not None and _ENC_BY_NAME[codec] in decode
     return _replay_header(header, decode, codec, (200,) if ok else (415,))
 
@@ -492,7 +541,8 @@ def _replay_freeform(args: dict) -> str | None:
     except UnicodeEncodeError:
         return None
     got = _real_request(_SENTINEL, _DEC_SETS[3], _RPC_PATH, _WIRE, len(_WIRE), False, ce)
-    return _mismatch(f"Content-Encoding {ce!r}", got, (200,) if ce.strip() == "" else (415,), _WIRE, _SENTINEL)
+    want = (200,) if ce.strip(" \t") == "" else ((200, 415) if ce.strip() == "" else (415,))
+    return _mismatch(f"Content-Encoding {ce!r}", got, want, _WIRE, _SENTINEL)
 
 
 def _replay_decode(args: dict) -> str | None:
@@ -504,6 +554,8 @@ def _replay_decode(args: dict) -> str | None:
         r = _replay_decode_one({**args, "undecodable": und}, plain0)
         if r:
             return r
+    if args["has_cap"]:
+        return _wire_bomb(_RPC_PATH, (_G if args["gzip"] else _Z).value, args["has_cl"], args["dechunked"])
     return None
 
 
@@ -546,18 +598,20 @@ def _replay_decode_one(args: dict, plain0: bytes) -> str | None:
 def _replay_exempt(args: dict) -> str | None:
     cap = 64
     app = _build_app(cap)
-    body = cod.compress(cod.Encoding.GZIP, b"\x00" * 10) + bytes(range(256)) * 40  # 10 KiB on the wire, cap 64
+    body = cod.compress(cod.Encoding.GZIP, b"\x00" * 10) + (bytes(range(256)) * 800)  # 200 KiB on the wire (cap 64, chunk 64 KiB)
     out = []
-    for prefix in _EXEMPT:
-        for path in (prefix, prefix + "/x"):
-            for method in ("GET", "POST"):
-                outcome, pulled = _real_pipeline_pull(app, method, path, body, {"Content-Encoding": "gzip"})
-                if pulled > cap + 1:
-                    status, _payload, _ = _wsgi_call(app, method, path, body, {"Content-Encoding": "gzip"})
-                    out.append(f"{method} {path}: request middlewares read {pulled} bytes into memory ({outcome}; the app answers {status})")
+    framings = [(args.get("has_cl", True), args.get("dechunked", False)), (True, False), (False, True)]
+    for has_cl, dech in framings[:1] + [f for f in framings[1:] if f != framings[0]]:
+        for prefix in _EXEMPT:
+            for path in (prefix, prefix + "/x"):
+                for method in ("GET", "POST"):
+                    outcome, pulled = _real_pipeline_pull(app, method, path, body, {"Content-Encoding": "gzip"}, has_cl, dech)
+                    if pulled > cap + 1 + _WIRE_CHUNK:
+                        how = f"Content-Length {len(body)}" if has_cl else "no Content-Length, de-chunked by the WSGI stack"
+                        out.append(f"{method} {path} ({how}): request middlewares read {pulled} bytes into memory ({outcome})")
     if out:
-        ctl, ctl_pulled = _real_pipeline_pull(app, "POST", _RPC_PATH, body, {"Content-Encoding": "gzip"})
-        return f"max_request_bytes={cap}, {len(body)}-byte gzip-labelled body: " + "; ".join(out[:4]) + f" (same body on {_RPC_PATH}: {ctl}, {ctl_pulled} bytes read)"
+        ctl, ctl_pulled = _real_pipeline_pull(app, "POST", _RPC_PATH, body, {"Content-Encoding": "gzip"}, False, True)
+        return f"max_request_bytes={cap}, {len(body)}-byte gzip-labelled body: " + "; ".join(out[:4]) + f" (same body de-chunked on {_RPC_PATH}: {ctl}, {ctl_pulled} bytes read)"
     return None
 
 
@@ -627,15 +681,20 @@ def wire_cap_and_passthrough(data: bytes, has_cl: bool, cl: int, cap: int, dechu
     status, handed = _run(_PIPE, req)
     wire = _wire_len(len(data), has_cl, cl, dechunked)
     too_big = (cl > cap) if has_cl else (wire > cap)
-    if req.bounded_stream.pulled > cap + 1:
+    if over_pulled(req.bounded_stream, cap, req.bounded_stream.pulled):
         return False
     if too_big:
         return status == 413
     return status == 200 and handed == data[:wire] and _Dec.calls == 0
 
 
-# tokens: (text, codec name or None).  Unknown ones are spec-level examples, not repository data.
-_UNKNOWN_TOKENS = ["br", "deflate", "compress", "x-gzip", "gzipp", "gzi", "g zip", "gzip,zstd", "gzip, gzip", "zstd;q=1", "*", "none"]
+# tokens: (text, codec name or None).  Unknown ones are spec-level examples, not repository data: a token that the
+# live Encoding enum (now) names is not "unknown" and is dropped here (it is then covered as a codec name).
+_LIVE_NAMES = {e.value.lower() for e in cod.Encoding}
+_UNKNOWN_TOKENS = [t for t in ["br", "deflate", "compress", "gzipp", "gzi", "g zip", "gzip,zstd", "gzip, gzip", "zstd;q=1", "*", "none"] if t not in _LIVE_NAMES]
+# RFC 9110 8.4.1: "x-gzip" / "x-compress" are aliases a recipient SHOULD treat as gzip / compress.  A server may refuse
+# the alias (415, today) or decode it as the codec it stands for — never anything else.
+_ALIAS_TOKENS = [(t, of) for t, of in [("x-gzip", "gzip"), ("x-compress", "compress")] if t not in _LIVE_NAMES]
 
 
 def _variants(t: str) -> list[str]:
@@ -643,7 +702,10 @@ def _variants(t: str) -> list[str]:
 
 
 _CODEC_NAMES = [e.value for e in cod.Encoding if e is not cod.Encoding.IDENTITY]
-_TOKENS: list[tuple[list[str], str | None]] = [(_variants(n), n) for n in _CODEC_NAMES] + [(_variants(t), None) for t in _UNKNOWN_TOKENS]
+_TOKENS: list[tuple[list[str], str | None]] = (
+    [(_variants(n), n) for n in _CODEC_NAMES] + [(_variants(t), None) for t in _UNKNOWN_TOKENS] + [(_variants(t), None) for t, _of in _ALIAS_TOKENS]
+)
+_ALIAS_FIRST = len(_CODEC_NAMES) + len(_UNKNOWN_TOKENS)  # _TOKENS[_ALIAS_FIRST + i] is _ALIAS_TOKENS[i]
 _ALL_NAMES = [e.value for e in cod.Encoding]
 # a codec name wrapped in one extra character on either side is not another codec name (so such a header names nothing)
 assert not any(len(a) - len(b) in (1, 2) and b in a for a in _ALL_NAMES for b in _ALL_NAMES), "codec names nest: revisit the padding oracle"
@@ -672,7 +734,7 @@ _OWS = ["", " ", "\t"]
 
 
 @cond(q=60, t=300, stubs=_STUBS, encoded=[mwm._CompressionMiddleware.process_request],
-      bound="codec and 12 non-codec tokens x 4 case variants x optional SP/HTAB on either side, every decode subset of {zstd,gzip}",
+      bound=f"codec, {len(_UNKNOWN_TOKENS)} non-codec and {len(_ALIAS_TOKENS)} alias tokens x 4 case variants x optional SP/HTAB on either side, every decode subset of {{zstd,gzip}}",
       replay=_replay_token, signature=lambda a, c: "C17:coding-token:" + str(_TOKENS[a["which"]][1] or "unknown"))
 def coding_token_mapping(which: int, variant: int, lp: int, rp: int, dz: bool, dg: bool) -> bool:
     """
@@ -688,6 +750,11 @@ def coding_token_mapping(which: int, variant: int, lp: int, rp: int, dz: bool, d
     _Dec.plain, _Dec.undecodable = _PLAIN, False
     req = _mk_req(_RPC_PATH, _WIRE, True, len(_WIRE), False, header)
     status, handed = _run(_PIPE, req)
+    if which >= _ALIAS_FIRST:
+        if status == 415:
+            return _Dec.calls == 0
+        of = _ENC_BY_NAME.get(_ALIAS_TOKENS[which - _ALIAS_FIRST][1])
+        return status == 200 and of is not None and of in decode and handed == _PLAIN and _Dec.enc is of and _Dec.data == _WIRE and _Dec.cap == _SENTINEL
     if codec is None:
         return status == 415 and _Dec.calls == 0
     enc = _ENC_BY_NAME[codec]
@@ -736,8 +803,10 @@ def coding_short_freeform(ce: str) -> bool:
     status, handed = _run(_PIPE, req)
     if _Dec.calls != 0:
         return False  # nothing this short names a codec
-    if ce.strip() == "":  # nothing but white space: no coding named
+    if ce.strip(" \t") == "":  # nothing but HTTP optional white space: no coding named
         return status == 200 and handed == _WIRE
+    if ce.strip() == "":  # other (Unicode / control) white space only: "no coding" or "an unknown token", nothing else
+        return status == 415 or (status == 200 and handed == _WIRE)
     return status == 415
 
 
@@ -759,7 +828,7 @@ def decode_outcome_mapping(data: bytes, plain: bytes, has_cl: bool, cl: int, has
     status, handed = _run(pipe, req)
     wire = _wire_len(len(data), has_cl, cl, dechunked)
     if has_cap:
-        if req.bounded_stream.pulled > cap + 1:
+        if over_pulled(req.bounded_stream, cap, req.bounded_stream.pulled):
             return False
         if (cl > cap) if has_cl else (wire > cap):
             return status == 413 and _Dec.calls == 0
@@ -792,7 +861,7 @@ def identity_coding_passes_through(data: bytes, has_cl: bool, cl: int, cap: int,
     req = _mk_req(_RPC_PATH, data, has_cl, cl, dechunked, _OWS[lp] + _IDENT[variant] + _OWS[rp])
     status, handed = _run(_PIPE, req)
     wire = _wire_len(len(data), has_cl, cl, dechunked)
-    if req.bounded_stream.pulled > cap + 1:
+    if over_pulled(req.bounded_stream, cap, req.bounded_stream.pulled):
         return False
     if (cl > cap) if has_cl else (wire > cap):
         return status == 413
@@ -803,9 +872,9 @@ _EXEMPT_PATHS = [p for pre in _EXEMPT for p in (pre, pre + "/x")]
 
 
 @cond(q=60, t=300, stubs=_STUBS, encoded=[mwm._MaxRequestBytesMiddleware.process_request, mwm._CompressionMiddleware.process_request],
-      bound=f"paths exempt from the wire cap (factory list) and one level below, Content-Length 0..{_NB + 2}, body len<={_NB}, cap 0..{_NB + 1}, coding zstd|gzip",
+      bound=f"paths exempt from the wire cap (factory list) and one level below, Content-Length None|0..{_NB + 2}, with and without a de-chunking WSGI stack, body len<={_NB}, cap 0..{_NB + 1}, coding zstd|gzip",
       replay=_replay_exempt, signature=lambda a, c: "C17:exempt-path-body-read-unbounded")
-def exempt_path_allocation_guard(data: bytes, cl: int, cap: int, which_path: int, gzip: bool) -> bool:
+def exempt_path_allocation_guard(data: bytes, has_cl: bool, cl: int, dechunked: bool, cap: int, which_path: int, gzip: bool) -> bool:
     """
     pre: len(_EXEMPT_PATHS) > 0 and len(data) <= _NB and 0 <= cl <= _NB + 2 and 0 <= cap <= _NB + 1 and 0 <= which_path < len(_EXEMPT_PATHS)
     post: _
@@ -813,17 +882,44 @@ def exempt_path_allocation_guard(data: bytes, cl: int, cap: int, which_path: int
     _set_cap(_PIPE, cap)
     _set_decode(_PIPE, _FACTORY_DECODE)
     _Dec.plain, _Dec.undecodable = b"", False
-    req = _mk_req(_EXEMPT_PATHS[which_path], data, True, cl, False, (_G if gzip else _Z).value)
-    _run(_PIPE, req)
-    # whatever the answer, the server must not have materialised more than cap+1 bytes of the wire body
-    return req.bounded_stream.pulled <= cap + 1
+    req = _mk_req(_EXEMPT_PATHS[which_path], data, has_cl, cl, dechunked, (_G if gzip else _Z).value)
+    status, _handed = _run(_PIPE, req)
+    if _MODEL_ERRORS:
+        raise HarnessModelError(_MODEL_ERRORS[0])
+    # whatever the answer, the server must not have materialised more than the cap plus a bounded chunk of the wire body
+    if over_pulled(req.bounded_stream, cap, req.bounded_stream.pulled):
+        return False
+    # a coded body that is over the cap on the wire is never given to a decoder (whether such a path answers 413 or
+    # ignores the body is the exemption's business)
+    wire = _wire_len(len(data), has_cl, cl, dechunked)
+    if (cl > cap) if has_cl else (wire > cap):
+        return _Dec.calls == 0 and status in (413, 200)
+    return True
 
 
 def _replay_drain(args: dict) -> str | None:
+    ce = _G.value if args.get("gzip") else None
+    for has_cl, dech in dict.fromkeys([(args.get("has_cl", True), args.get("dechunked", False)), (True, False), (False, True)]):
+        if has_cl or dech:
+            r = _replay_drain_one(has_cl, ce)
+            if r:
+                return r
+    return None
+
+
+def _replay_drain_one(has_cl: bool, ce: str | None) -> str | None:
     cap = 64
     app = _build_app(cap)
     body = bytes(range(256)) * 800  # 200 KiB: more than cap + one 64 KiB drain chunk
-    env = falcon.testing.create_environ(path=_RPC_PATH, method="POST", headers={"Content-Type": "application/vnd.apache.arrow.stream"}, body=body)
+    headers = {"Content-Type": "application/vnd.apache.arrow.stream"}
+    if ce:
+        headers["Content-Encoding"] = ce
+    env = falcon.testing.create_environ(path=_RPC_PATH, method="POST", headers=headers, body=body)
+    if not has_cl:
+        # a WSGI stack that de-chunks: no Content-Length, the body behind bounded_stream
+        env.pop("CONTENT_LENGTH", None)
+        env["HTTP_TRANSFER_ENCODING"] = "chunked"
+        app._request_type = _DechunkedRequest  # type: ignore[attr-defined]
 
     class _Biggest(_CountingInput):
         biggest = 0
@@ -839,8 +935,8 @@ def _replay_drain(args: dict) -> str | None:
     b"".join(app(env, lambda s, h, e=None: status.append(s)))  # type: ignore[operator]
     if inp.biggest > cap + 1 + 64 * 1024:
         return (
-            f"max_request_bytes={cap}: POST {_RPC_PATH} with Content-Length {len(body)} is answered {status[0]}, and the server then reads "
-            f"the refused body with ONE wsgi.input.read({inp.biggest}) — the whole body is materialised after the 413"
+            f"max_request_bytes={cap}: POST {_RPC_PATH} with {'Content-Length ' + str(len(body)) if has_cl else 'a de-chunked ' + str(len(body)) + '-byte body (no Content-Length)'} "
+            f"is answered {status[0]}, and the server reads the refused body with ONE wsgi.input.read() of {inp.biggest} bytes — the whole body is materialised"
         )
     return None
 
@@ -863,8 +959,8 @@ def refused_body_is_not_materialised(data: bytes, has_cl: bool, cl: int, cap: in
     mwm._DrainRequestMiddleware.process_response(_DRAIN[0], req, None, None, status == 200)  # type: ignore[arg-type]
     if _MODEL_ERRORS:
         raise HarnessModelError(_MODEL_ERRORS[0])
-    # no single object larger than cap+1 bytes of request body was ever created, refused or not
-    return req.bounded_stream.biggest <= cap + 1
+    # no single object larger than the cap plus a bounded chunk of request body was ever created, refused or not
+    return not over_pulled(req.bounded_stream, cap, req.bounded_stream.biggest)
 
 
 # ---------------------------------------------------------------------------
@@ -887,7 +983,7 @@ class _FrameStream:
         if self._done:
             return b""
         if size is not None and 0 <= size < self._wire:
-            raise _model_error("partial read of the opaque frame")
+            raise _model_error("partial read of the opaque frame")  # (Content-Length is present and within the cap here)
         self._done = True
         self.pulled += self._wire
         self.biggest = self._wire
@@ -902,19 +998,21 @@ def _decoder_end_to_end(frame: object, n: int, plain: bytes, wire: int, cap: int
     _set_decode(_PIPE, _FACTORY_DECODE)
     rec = c18.reset_rec(cap, pend=pend, quantum=quantum)
     codec = frame.codec  # type: ignore[attr-defined]
+    frame.wire = wire  # type: ignore[attr-defined]
     req = _Req(_RPC_PATH, wire, _FrameStream(frame, wire), codec)  # type: ignore[arg-type]
     with c18.stub_zstandard():
         status, handed = _run(_PIPE, req, comp_real_decoder)
     if _MODEL_ERRORS:
         raise HarnessModelError(_MODEL_ERRORS[0])
-    if wire > cap:
-        return status == 413 and rec.produced == 0 and rec.alloc == 0 and req.bounded_stream.pulled == 0
-    # whatever the answer: the decoder was never asked for more than min(chunk, cap - produced + 1) bytes (never for
-    # "everything"), and never produced / allocated more than the cap plus what it was already holding
-    if rec.bad_request or rec.produced > cap + (pend if pend > 1 else 1) or rec.alloc > cap:
+    # whatever the answer: the codec was never asked for "everything", and never produced / allocated more than the cap
+    # plus one chunk (plus what zlib was already holding)
+    if c18.over_materialised(rec, cap, pend):
         return False
+    if wire > cap:
+        return status == 413
     if lying:
-        return status == 413 and declared > cap if status != 400 else True
+        # undecodable; 413 is as good when the header or the decodable blocks alone are over the cap
+        return status == 400 or (status == 413 and (declared > cap or n > cap))
     if n > cap:
         return status == 413
     return status == 200 and handed == plain
@@ -960,10 +1058,37 @@ def _replay_decoder(codec: str, args: dict) -> str | None:
     cap0 = args["cap"]
     # the counterexample's decoded length first, then its neighbours just over the cap (a stub-level failure "asked for
     # everything while input remained" needs output left to inflate before real zlib makes that call)
-    for n0 in (len(args["plain"]), cap0 + 1, cap0 + c18._CHUNK + 1):
-        r = _replay_decoder_one(codec, enc, mode, args, n0, cap0)
+    if codec == "zstd" and mode == 3:
+        # a header that lies about the blocks: decided on the real decoder functions (real zstandard, header-patched frame)
+        r = c18._replay_cap(_Z, args["plain"], cap0, 3, args["lie"])
         if r:
             return r
+    for n0 in (len(args["plain"]), cap0 + 1, cap0 + c18._CHUNK + 1):
+        r = _replay_decoder_one(codec, enc, 0 if mode == 3 else mode, args, n0, cap0)
+        if r:
+            return r
+    return _replay_decoder_bombs(codec, enc, 0 if mode == 3 else mode, c18._lift(cap0) + _SHIFT)
+
+
+def _replay_decoder_bombs(codec: str, enc: object, mode: int, cap: int) -> str | None:
+    """What a decoder that lost its bound does with it: small on the wire, the cap plus four chunks once decoded —
+    one frame of the counterexample's kind, and (zstd) a small honest frame followed by a second frame."""
+    n = cap + 4 * c18._REAL_CHUNK
+    zeros = b"\x00" * n
+    bodies = [(f"{enc.value} frame decoding to {n} bytes", cod.compress(_G, zeros) if codec == "gzip" else c18.real_zstd_frame(zeros, mode))]  # type: ignore[attr-defined]
+    if codec == "zstd":
+        bodies.append((f"zstd frame declaring 5 bytes followed by a second frame decoding to {n} bytes", _real_zstd.ZstdCompressor().compress(b"hello") + _real_zstd.ZstdCompressor().compress(zeros)))
+    for label, body in bodies:
+        if body is None or len(body) > cap:
+            continue
+        status, handed, m = _real_mw_metered(enc, body, cap)
+        what = f"max_request_bytes={cap}, Content-Encoding: {enc.value}, {len(body)}-byte {label}"  # type: ignore[attr-defined]
+        if status == 200 and len(handed or b"") > cap:
+            return f"{what}: {len(handed or b'')} decoded bytes reach the RPC layer instead of a 413"
+        if m.over():  # type: ignore[attr-defined]
+            return f"{what}: answered {status} after materialising {m.produced} decoded bytes (one-shot allocation {m.alloc}){m.unlimited}"  # type: ignore[attr-defined]
+        if status not in (413, 400, 200):
+            return f"{what}: answered {status}"
     return None
 
 
@@ -976,8 +1101,6 @@ def _replay_decoder_one(codec: str, enc: object, mode: int, args: dict, n0: int,
             body = cod.compress(_G, plain)
             label = "gzip member"
         else:
-            if mode == 3:
-                return None  # (lying headers: replayed at the codec level by C18)
             body = c18.real_zstd_frame(plain, mode)
             label = "size-declaring zstd frame" if mode == 0 else "size-less zstd frame"
         if body is None or len(body) > cap:
@@ -987,10 +1110,8 @@ def _replay_decoder_one(codec: str, enc: object, mode: int, args: dict, n0: int,
         want = 200 if n <= cap else 413
         if status != want or (status == 200 and handed != plain):
             return f"{what}: answered {status}, expected {want}"
-        if m.bad:  # type: ignore[attr-defined]
-            return f"{what}: answered {status}, but {m.bad}"  # type: ignore[attr-defined]
-        if m.produced > cap + c18._REAL_CHUNK or m.alloc > cap:  # type: ignore[attr-defined]
-            return f"{what}: answered {status} after materialising {m.produced} decoded bytes (one-shot allocation {m.alloc})"  # type: ignore[attr-defined]
+        if m.over():  # type: ignore[attr-defined]
+            return f"{what}: answered {status} after materialising {m.produced} decoded bytes (one-shot allocation {m.alloc}){m.unlimited}"  # type: ignore[attr-defined]
     return None
 
 
